@@ -19,6 +19,7 @@ import (
 	"strconv"
 	"strings"
 	"sync"
+	"syscall"
 	"time"
 
 	"github.com/nsqio/nsq/verifharness/hlib"
@@ -78,6 +79,7 @@ var listenRe = regexp.MustCompile(`HTTP: listening on \S*?:(\d+)`)
 
 func startChild(bin string, args []string) (*child, error) {
 	cmd := exec.Command(bin, args...)
+	cmd.SysProcAttr = &syscall.SysProcAttr{Pdeathsig: syscall.SIGKILL}
 	pr, pw := io.Pipe()
 	cmd.Stderr = pw
 	cmd.Stdout = pw
@@ -145,6 +147,9 @@ var frameRe = regexp.MustCompile(`^github\.com/nsqio/nsq/([^\s(]+(?:\(\*?\w+\))?
 
 func crashSite(log string) (string, string) {
 	i := strings.LastIndex(log, "panic: ")
+	if j := strings.LastIndex(log, "fatal error: "); j > i {
+		i = j
+	}
 	if i < 0 {
 		return "exit-without-panic", tail(log, 600)
 	}
@@ -199,15 +204,21 @@ func (vc *viewCell) Close() {
 
 func (vc *viewCell) childFor(cl *Cluster) (*child, string, error) {
 	var key string
-	args := []string{"--http-address=127.0.0.1:0", "--http-client-connect-timeout=" + vc.timeout,
-		"--http-client-request-timeout=" + vc.timeout}
+	to := "60s" // a healthy stub never misses this, however loaded the machine is
+	for _, f := range cl.Fail {
+		if f == "slow" {
+			to = vc.timeout
+		}
+	}
+	args := []string{"--http-address=127.0.0.1:0", "--http-client-connect-timeout=" + to,
+		"--http-client-request-timeout=" + to}
 	if cl.Mode == "lookupd" {
-		key = fmt.Sprintf("lookupd%d", len(cl.L))
+		key = fmt.Sprintf("lookupd%d/%s", len(cl.L), to)
 		for _, l := range sorted(cl.L) {
 			args = append(args, "--lookupd-http-address="+vc.cell.stubAddr(l))
 		}
 	} else {
-		key = fmt.Sprintf("direct%d", len(cl.N))
+		key = fmt.Sprintf("direct%d/%s", len(cl.N), to)
 		for _, n := range sorted(cl.N) {
 			args = append(args, "--nsqd-http-address="+vc.cell.stubAddr(n))
 		}
@@ -695,10 +706,15 @@ func viewRun(args []string) int {
 				mu.Unlock()
 				vc.cell.set(&cs.Cl)
 				fc := "none"
+				var fcs []string
 				for _, f := range cs.Cl.Fail {
 					if f != "ok" {
-						fc = f
+						fcs = append(fcs, f)
 					}
+				}
+				if len(fcs) > 0 {
+					sort.Strings(fcs)
+					fc = strings.Join(fcs, "+")
 				}
 				for _, rq := range vc.requests(cs) {
 					obs, err := vc.one(cs, rq)
@@ -711,7 +727,11 @@ func viewRun(args []string) int {
 					var f *ViewFinding
 					if obs.Crash != "" {
 						site := strings.SplitN(obs.Crash, " -- ", 2)[0]
-						f = &ViewFinding{Kind: "crash", Key: "crash:" + site, View: rq.key, Path: rq.path, Case: cs.Raw, Obs: obs,
+						kind := "crash"
+						if site == "exit-without-panic" {
+							kind = "child-exit" // the process went away without a Go panic: not attributable to nsqadmin
+						}
+						f = &ViewFinding{Kind: kind, Key: kind + ":" + site, View: rq.key, Path: rq.path, Case: cs.Raw, Obs: obs,
 							What: fmt.Sprintf("nsqadmin crashed while serving %s (%s mode, upstream failure classes %v): %s",
 								rq.kind, cs.Cl.Mode, nonOk(cs.Cl.Fail), obs.Crash)}
 					} else if d := compareView(rq.kind, rq.pred, obs); d != "" {
@@ -725,7 +745,11 @@ func viewRun(args []string) int {
 							}
 						}
 						if confirmed {
-							f = &ViewFinding{Kind: "view", Key: "view:" + rq.kind + ":" + cs.Cl.Mode + ":" + fc, View: rq.key, Path: rq.path,
+							kind := "view"
+							if isSlow(cs) {
+								kind = "view-deadline" // depends on nsqadmin's upstream timeout: never a violation by itself
+							}
+							f = &ViewFinding{Kind: kind, Key: kind + ":" + rq.kind + ":" + cs.Cl.Mode + ":" + fc, View: rq.key, Path: rq.path,
 								Case: cs.Raw, Obs: obs, What: fmt.Sprintf("%s view (%s mode, failing %v): %s", rq.kind, cs.Cl.Mode, nonOk(cs.Cl.Fail), d)}
 						} else {
 							mu.Lock()
